@@ -90,90 +90,97 @@ def batches (g : Nat → ρ → Stream ε ρ) : Nat → Stream ε ρ → Nat →
 /-- a node with one input: items the guard takes from the operator, items the operator takes from
     the child's guard, and whatever the child consumes for that -/
 def unaryTrace {σ : Type} (L : LimEnv ε) (site : Site) (t : Trans σ ε ρ) (st : σ) (c : Stream ε ρ)
-    (childTrace : Nat → List (Handed ε ρ)) (d : Nat) : List (Handed ε ρ) :=
+    (childTrace : Nat → List (Handed ε ρ)) (pre : Nat) (d : Nat) : List (Handed ε ρ) :=
   let d1 := guardNeed L site (t.run st c) d
-  let d2 := t.need st c d1
+  let d2 := t.need st c (max d1 pre)
   handed true ((t.run st c).take d1) ++ handed false (c.take d2) ++ childTrace d2
+
+/-- `execute_order_by` / `execute_aggregate` drain their input when the iterator tree is BUILT
+    (`execute_plan`), before anything is demanded of them: with `eager` the accounting includes that
+    (the engine's row counter does); without it the accounting is purely demand-driven (what the
+    query's RESULT depends on — the notion of "consumed" of C22) -/
+def eagerPre (eager : Bool) : Nat := if eager then 1 else 0
 
 /-- a node whose body does not touch any input (leaf, or SKIP/LIMIT with a failing argument) -/
 def leafTrace (L : LimEnv ε) (site : Site) (body : Stream ε ρ) (d : Nat) : List (Handed ε ρ) :=
   handed true (body.take (guardNeed L site body d))
 
-/-- everything handed over below (and at) the node `p` while its iterator answers `d` calls -/
-def trace (S : Sem χ ρ ν ε κ α) (Q : Quirks) (L : LimEnv ε) :
+/-- everything handed over below (and at) the node `p` while its iterator answers `d` calls
+    (`eager`: see `eagerPre`) -/
+def trace (eager : Bool) (S : Sem χ ρ ν ε κ α) (Q : Quirks) (L : LimEnv ε) :
     Site → ρ → Plan χ ρ ε α → Nat → List (Handed ε ρ)
   | site, _, .source items, d => leafTrace L site items d
   | site, env, .arg, d => leafTrace L site [.ok env] d
   | site, env, .filter pred inp, d =>
     unaryTrace L site (filterT S Q L env pred) () (runL S Q L (.left site) env inp)
-      (trace S Q L (.left site) env inp) d
+      (trace eager S Q L (.left site) env inp) 0 d
   | site, env, .filterExists sub inp, d =>
     let g := fun k r => existsRow Q r (runL S Q L (.exec k site) (S.bind env r) sub)
     let c := runL S Q L (.left site) env inp
-    unaryTrace L site (flatMapT g) 0 c (trace S Q L (.left site) env inp) d ++
+    unaryTrace L site (flatMapT g) 0 c (trace eager S Q L (.left site) env inp) 0 d ++
       ((batches g 0 c (guardNeed L site ((flatMapT g).run 0 c) d)).map (fun b =>
-        trace S Q L (.exec b.1 site) (S.bind env b.2.1) sub 1)).flatten
+        trace eager S Q L (.exec b.1 site) (S.bind env b.2.1) sub 1)).flatten
   | site, env, .project projs inp, d =>
     unaryTrace L site (projectT S L env projs) () (runL S Q L (.left site) env inp)
-      (trace S Q L (.left site) env inp) d
+      (trace eager S Q L (.left site) env inp) 0 d
   | site, env, .distinct inp, d =>
     unaryTrace L site (distinctT S Q.distinctDropsErr) [] (runL S Q L (.left site) env inp)
-      (trace S Q L (.left site) env inp) d
+      (trace eager S Q L (.left site) env inp) 0 d
   | site, env, .unwind e alias inp, d =>
     unaryTrace L site (flatMapT (unwindRow S L site env e alias)) 0 (runL S Q L (.left site) env inp)
-      (trace S Q L (.left site) env inp) d
+      (trace eager S Q L (.left site) env inp) 0 d
   | site, env, .expand f inp, d =>
     unaryTrace L site (flatMapT (fun _ r => f r)) 0 (runL S Q L (.left site) env inp)
-      (trace S Q L (.left site) env inp) d
+      (trace eager S Q L (.left site) env inp) 0 d
   | site, env, .skip n inp, d =>
     (match S.window n env with
      | .error e => leafTrace L site [.error e] d
      | .ok k => unaryTrace L site (skipT Q.skipDropsErr) k (runL S Q L (.left site) env inp)
-         (trace S Q L (.left site) env inp) d)
+         (trace eager S Q L (.left site) env inp) 0 d)
   | site, env, .limit n inp, d =>
     (match S.window n env with
      | .error e => leafTrace L site [.error e] d
      | .ok k => unaryTrace L site limitT k (runL S Q L (.left site) env inp)
-         (trace S Q L (.left site) env inp) d)
+         (trace eager S Q L (.left site) env inp) 0 d)
   | site, env, .orderBy keys inp, d =>
     unaryTrace L site (orderByT S Q L site env keys) ⟨[], 0, false⟩ (runL S Q L (.left site) env inp)
-      (trace S Q L (.left site) env inp) d
+      (trace eager S Q L (.left site) env inp) (eagerPre eager) d
   | site, env, .aggregate groupBy aggs inp, d =>
     unaryTrace L site (aggregateT S L site env groupBy aggs) ⟨[], 0, false⟩ (runL S Q L (.left site) env inp)
-      (trace S Q L (.left site) env inp) d
+      (trace eager S Q L (.left site) env inp) (eagerPre eager) d
   | site, env, .union all l r, d =>
     let cl := runL S Q L (.left site) env l
     let cr := runL S Q L (.right site) env r
     if all then
       let d1 := guardNeed L site (cl ++ cr) d
       handed true ((cl ++ cr).take d1) ++
-        trace S Q L (.left site) env l d1 ++ trace S Q L (.right site) env r (d1 - cl.length)
+        trace eager S Q L (.left site) env l d1 ++ trace eager S Q L (.right site) env r (d1 - cl.length)
     else
       let t := distinctT (ρ := ρ) S Q.unionDropsErr
       let d1 := guardNeed L site (t.run [] (cl ++ cr)) d
       let d2 := t.need [] (cl ++ cr) d1
       handed true ((t.run [] (cl ++ cr)).take d1) ++ handed false ((cl ++ cr).take d2) ++
-        trace S Q L (.left site) env l d2 ++ trace S Q L (.right site) env r (d2 - cl.length)
+        trace eager S Q L (.left site) env l d2 ++ trace eager S Q L (.right site) env r (d2 - cl.length)
   | site, env, .cartesian l r, d =>
     let g := fun k lrow => (runL S Q L (.exec k site) env r).map (joinItem S lrow)
     let c := runL S Q L (.left site) env l
-    unaryTrace L site (flatMapT g) 0 c (trace S Q L (.left site) env l) d ++
+    unaryTrace L site (flatMapT g) 0 c (trace eager S Q L (.left site) env l) 0 d ++
       ((batches g 0 c (guardNeed L site ((flatMapT g).run 0 c) d)).map (fun b =>
-        trace S Q L (.exec b.1 site) env r b.2.2)).flatten
+        trace eager S Q L (.exec b.1 site) env r b.2.2)).flatten
   | site, env, .apply inp sub, d =>
     (match L.time (.inner site) 0 with
      | some e => leafTrace L site [.error e] d
      | none =>
        let g := fun k r => applyRow S L site k r (runL S Q L (.exec k site) (S.bind env r) sub)
        let c := runL S Q L (.left site) env inp
-       unaryTrace L site (flatMapT g) 0 c (trace S Q L (.left site) env inp) d ++
+       unaryTrace L site (flatMapT g) 0 c (trace eager S Q L (.left site) env inp) 0 d ++
          ((batches g 0 c (guardNeed L site ((flatMapT g).run 0 c) d)).map (fun b =>
-           trace S Q L (.exec b.1 site) (S.bind env b.2.1) sub
+           trace eager S Q L (.exec b.1 site) (S.bind env b.2.1) sub
              (driverDemand (runL S Q L (.exec b.1 site) (S.bind env b.2.1) sub)))).flatten)
 
 /-- `ExecutionRuntimeState::emitted_rows` after the driver's `collect`: `Ok` rows handed to guards -/
 def emittedRows (S : Sem χ ρ ν ε κ α) (Q : Quirks) (L : LimEnv ε) (params : ρ) (p : Plan χ ρ ε α) : Nat :=
-  ((trace S Q L .root params p (driverDemand (runL S Q L .root params p))).filter
+  ((trace true S Q L .root params p (driverDemand (runL S Q L .root params p))).filter
     (fun h => h.toGuard && Item.isOk h.item)).length
 
 end trace
